@@ -62,8 +62,17 @@ class Translated(Exception):
     """What a context raises in place of the body's failure."""
 
 
+class ShutdownSignal(GeneratorExit):
+    """A SUBCLASS of GeneratorExit raised by a body: an exception like any other - it is thrown into a generator
+    based manager as that very object (only GeneratorExit itself is "close the generator")."""
+
+
+class StopSignal(StopAsyncIteration):
+    pass
+
+
 EXACT = {"Exception": Exception, "BaseException": BaseException, "StopAsyncIteration": StopAsyncIteration,
-         "RuntimeError": RuntimeError, "KeyError": KeyError}
+         "RuntimeError": RuntimeError, "KeyError": KeyError, "ShutdownSignal": ShutdownSignal, "StopSignal": StopSignal}
 
 
 def execute(case, choose, cancel_at=None):
